@@ -24,6 +24,9 @@ def grids():
         out.append(("cartesian", f"c2{'p' if per else ''}", CartesianGrid([[0, 16], [0, 12]], [16, 12], periodic=per), [[4.5, 6.0], [11.5, 6.0]], 2.6))
         out.append(("cartesian", f"c3{'p' if per else ''}", CartesianGrid([[0, 14], [0, 8], [0, 8]], [14, 8, 8], periodic=per), [[3.5, 4.0, 4.0], [10.5, 4.0, 4.0]], 2.4))
         out.append(("cylindrical", f"cyl{'p' if per else ''}", CylindricalSymGrid(5, [0, 16], [5, 16], periodic_z=per), [[0, 0, 4.0], [0, 0, 12.0]], 2.4))
+    # anisotropic grid with a two-cell cluster whose equal-volume disk covers NO cell centre (refinement has nothing
+    # to fit there) next to an ordinary droplet: every result must still have the requested class
+    out.append(("cartesian", "c2tiny", CartesianGrid([[0, 12], [0, 2.4]], [12, 24]), [[8.5, 1.2], "tiny"], 0.8))
     out.append(("polar", "polar", PolarSymGrid(8, 16), [[0.0, 0.0]], 3.2))
     out.append(("spherical", "spherical", SphericalSymGrid(8, 16), [[0.0, 0.0, 0.0]], 3.2))
     return out
@@ -52,7 +55,9 @@ def run_table(ck: Check, rules):
 
     reqs, expect = [], []
     for fam, name, grid, centres, R in grids():
-        field = Emulsion([DiffuseDroplet(np.array(c, float), R, 1.0) for c in centres]).get_phasefield(grid)
+        field = Emulsion([DiffuseDroplet(np.array(c, float), R, 1.0 if name != "c2tiny" else 0.1) for c in centres if c != "tiny"]).get_phasefield(grid)
+        if "tiny" in centres:
+            field.data[3, 12] = field.data[4, 12] = 1.0
         for modes, width, refine, rule in itertools.product(MODES, [None, 0.0, 0.75], [False, True], rules):
             case = {"grid": name, "family": fam, "dim": grid.dim, "modes": modes, "interface_width": width, "refine": refine, "threshold": rule}
             sig = {"family": fam, "dim": grid.dim, "modes_positive": modes > 0, "refine": refine, "width": width is not None}
@@ -116,7 +121,7 @@ def replay(case: dict):
 
 def run(ck: Check):
     rules = [0.5] if ck.quick else [0.5, "auto", "extrema", "mean", "otsu"]
-    ck.rule = ("complete table: 10 grids (Cartesian 1/2/3-D and cylindrical, each periodic and not; polar; spherical) x modes {0,1,2,3,8} x "
+    ck.rule = ("complete table: 11 grids (Cartesian 1/2/3-D and cylindrical, each periodic and not; an anisotropic 2-D grid with a sub-resolution cluster; polar; spherical) x modes {0,1,2,3,8} x "
                "interface_width {None, 0.0, 0.75} x refine {off,on}" + (" x 5 threshold rules" if not ck.quick else "") + "; every cell is a distinct non-trivial case")
     ck.exhaustive = True
     ck.assumptions = ["the table is complete over the listed factors; the theorem resultClass_spec covers all mode counts"]
